@@ -14,6 +14,7 @@ import (
 	"verif/harness/c17"
 	"verif/harness/cr"
 	"verif/harness/cw"
+	"verif/harness/c19"
 	"verif/harness/c20"
 )
 
@@ -68,6 +69,8 @@ func main() {
 		c16.Run(*out)
 	case "c17":
 		c17.Run(*out)
+	case "c19":
+		c19.Run(*out)
 	case "c20":
 		if *mode == "sweep" {
 			c20.Sweep(*in, *out, uint64(*stride))
